@@ -16,7 +16,7 @@ import (
 type stressCase struct {
 	G     int    `json:"goroutines"`
 	Max   int    `json:"max_tokens"`
-	Phase string `json:"phase"` // bucket | balancer | refill-due
+	Phase string `json:"phase"`                  // bucket | balancer | refill-due
 	Idle  int    `json:"idle_periods,omitempty"` // refill-due: whole refill periods the drained client stays idle before the burst
 	Round int    `json:"round,omitempty"`
 }
